@@ -22,6 +22,9 @@ func init() {
 			"(R5) restore loops do not store the address of a per-loop (Go <= 1.21 semantics) range variable into a longer-lived table. " +
 			"Does not decide: value round trip through YAML, fsync-level durability, delivery on the SUB socket.",
 		RuleDocs: []string{
+			"C16.R6 stores into the decoded status record: under a test of the field itself (or max/min of it); for fields a setter validates, the replace condition (linear form) implies one of the setter's rejection tests",
+			"C16.R7 the loop over a decoded list has no exit other than exhaustion",
+			"C16.R8 os.IsNotExist / IsExist / IsPermission / IsTimeout in the save step are not applied to an error re-made with fmt.Errorf(%w)",
 			"C16.R1 taint of the live-config path value into destructive argument positions (os.Rename old path, os.Remove*, os.Create, os.WriteFile, os.Truncate, os.OpenFile with write flags, viper.WriteConfig*)",
 			"C16.R2 publish-rename source == argument of a dominating, error-checked viper.WriteConfigAs; destination == live-config path",
 			"C16.R3 control dependence of the cache updates in the updater loop; SENDALL arm ranges over the cache",
